@@ -4,7 +4,7 @@ CONSTANTS
   MaxDepth = 3
   MaxUnits = 1
   MaxVar = 1
-  UnitKinds <- ExhUnits
+  UnitKinds <- ExhUnits0
   ConKinds <- ExhCons
   SpecKinds <- ExhSpec
   SimpleV <- Set1
